@@ -2273,6 +2273,9 @@ class DataStoreMgr:
 
                 tp_delta = tp_updated.get(tp_id)
                 tp_node = tp_added.get(tp_id, tp_data.get(tp_id))
+                if tp_node is None:
+                    # child task no longer (or not yet) in the store
+                    continue
 
                 tp_depth = tp_delta
                 if tp_depth is None or not tp_depth.HasField('graph_depth'):
